@@ -12,6 +12,8 @@ def instances(tier):
             out.append((T, 'VH_C19_stateinit', [ver, hc, hd], {'weight': 40}))
     for (dl, pl) in ([(4, 4)] if tier == 'quick' else [(0, 0), (4, 4), (8, 16)]):
         out.append((T, 'VH_C19_client_proof', [dl, pl], {'weight': 3000}))
+    for (life, wait) in ([(2, 0), (1, 3)] if tier == 'quick' else [(2, 0), (3, 1), (1, 3), (2, 4)]):
+        out.append((T, 'VH_C19_payload', [life, wait], {'weight': 30, 'concrete_clock': True}))
     for z in ([0, 1, 2, 8, 9] if tier == 'quick' else list(range(0, 12)) + [31]):
         out.append((T, 'VH_C19_pubkey_from_getmethod', [z], {'weight': 10}))
     return out
@@ -20,8 +22,8 @@ def instances(tier):
 CHECK = dict(
     id='C19', pkgs=['tonconnect'], init_pkgs=['std:io', 'std:encoding/base64', 'std:encoding/hex', 'std:strconv', 'std:strings', 'boc', 'tlb', 'wallet', 'tonconnect'], instances=instances,
     opts={'budget_s': 1500, 'hash_injective': True},
-    level_text='createMessage produces exactly sha256(0xffff | "ton-connect" | sha256("ton-proof-item-v2/" | BE32(wc) | address | LE32(len domain) | domain | LE64(ts) | payload)) for all workchains, addresses, timestamps and domains/payloads of the stated lengths; with an ideal signature the proof verifies under the wallet key and is rejected under another key and when any byte of timestamp or workchain, the address, the domain or the payload differs; ParseStateInit of a known wallet state-init (V3R2, V4R2; arbitrary key and sub-wallet id) serialised to base64 BOC returns exactly the key, returns an error (never nil,nil) when code or data is missing; compareStateInitWithAddress accepts exactly the hash of the state-init; the get-method path (Server.getWalletPubKey through abi.GetPublicKey with a stub executor answering with an arbitrary 256-bit integer) hands exactly the 32 big-endian bytes of the key to verification, for keys with 0..8 leading zero bytes, and refuses implausibly short keys; client side: a proof made by CreateSignedProof (workchain of <= 5 digits, domain/payload symbolic) is taken apart by the server-side convertTonProofMessage into exactly the same account, time stamp, domain and payload, and verifies under the wallet key.',
-    level_note='SHA-256 and Ed25519 ideal (injective). Not covered: CheckProof end to end as one call (its parts are: message, signature, key from get-method, key from state-init), GeneratePayload/CheckPayload (HMAC + hex text of symbolic bytes), expiry comparisons against the wall clock, JSON transport.',
+    level_text='createMessage produces exactly sha256(0xffff | "ton-connect" | sha256("ton-proof-item-v2/" | BE32(wc) | address | LE32(len domain) | domain | LE64(ts) | payload)) for all workchains, addresses, timestamps and domains/payloads of the stated lengths; with an ideal signature the proof verifies under the wallet key and is rejected under another key and when any byte of timestamp or workchain, the address, the domain or the payload differs; ParseStateInit of a known wallet state-init (V3R2, V4R2; arbitrary key and sub-wallet id) serialised to base64 BOC returns exactly the key, returns an error (never nil,nil) when code or data is missing; compareStateInitWithAddress accepts exactly the hash of the state-init; the get-method path (Server.getWalletPubKey through abi.GetPublicKey with a stub executor answering with an arbitrary 256-bit integer) hands exactly the 32 big-endian bytes of the key to verification, for keys with 0..8 leading zero bytes, and refuses implausibly short keys; client side: a proof made by CreateSignedProof (workchain of <= 5 digits, domain/payload symbolic) is taken apart by the server-side convertTonProofMessage into exactly the same account, time stamp, domain and payload, and verifies under the wallet key; the time-limited payload (GeneratePayload / CheckPayload with an ideal HMAC, symbolic secret, deterministic clock): accepted while younger than its life time, refused once life time + 1 s has passed, refused when the text has another length.',
+    level_note='SHA-256 and Ed25519 ideal (injective). Not covered: CheckProof end to end as one call (its parts are: message, signature, key from get-method, key from state-init), forged payloads, JSON transport.',
     bounds={'domain/payload bytes': 'see instances', 'versions': 'V3R2, V4R2 (quick), + V3R1, V4R1 (thorough)'},
-    outside_claim=['V5 state-inits in ParseStateInit (the symbolic run of the V5R1 instance produced a counterexample that neither the native replay nor a concrete re-run of the engine confirms: an unresolved engine issue, the instance is excluded rather than reported)', 'Server.CheckProof as one call (the executor is a harness stub)', 'GeneratePayload / CheckPayload (HMAC, expiry)', 'proof lifetime check', 'real Ed25519/SHA-256/HMAC'],
+    outside_claim=['V5 state-inits in ParseStateInit (the symbolic run of the V5R1 instance produced a counterexample that neither the native replay nor a concrete re-run of the engine confirms: an unresolved engine issue, the instance is excluded rather than reported)', 'Server.CheckProof as one call (the executor is a harness stub)', 'forged payloads (only 16 of the 32 MAC bytes are compared: outside what the ideal-hash model decides)', 'proof lifetime check', 'real Ed25519/SHA-256/HMAC'],
 )
